@@ -59,7 +59,9 @@ Proof. exact stale_listing_rejected. Qed.
    Still `_partial`: the coroutine system itself is hand-written from the code (tied to it by reading and by the
    event-level correspondence run, not by a coroutine-level correspondence kind); asyncio.Lock is abstracted to
    "free or held" (its FIFO hand-over only removes behaviours); cachebox's inner per-key lock is not modelled
-   (it never contends under _jobs_cache_lock); undeploy is not part of the coroutine system. *)
+   (it never contends under _jobs_cache_lock).  Final round: undeploy() IS part of the coroutine system (snapshot /
+   scancel in flight / `_scheduled_jobs = {}`, interleaving freely with the jobs), and so is the KeyError of a
+   run() that pops its id from the replaced dictionary (program counter PFailed, event PopMissing). *)
 Theorem C27_coroutine_refines_partial : forall acts,
   exists q, accept q0 (snd (cexec c0 acts)) = Some q.
 Proof. exact coroutine_trace_accepted. Qed.
@@ -74,6 +76,23 @@ Example C27_coroutine_ex :
                AClear 2; ALeave 1; APoll 2; AListRet 2; APoll 1; AWake 2; AExpire; APoll 2; ALeave 2; AListRet 2] in
   cpc (fst (cexec c0 acts)) 1 = PDone /\ cpc (fst (cexec c0 acts)) 2 = PDone /\ cq (fst (cexec c0 acts)) = [].
 Proof. vm_compute. repeat split; reflexivity. Qed.
+
+(* once undeploy() has returned, every job recorded when it started is out of the queue, for every interleaving
+   of its three stretches with submissions, polls, leaves and expiries (jobs submitted but not yet recorded are
+   NOT covered: C27_unrecorded_job_survives_undeploy_refuted) *)
+Theorem C27_undeploy_cancels_recorded_coroutine_partial : forall acts,
+  cund (fst (cexec c0 acts)) = UDone ->
+  exists l, csnap (fst (cexec c0 acts)) = Some l /\ forall x, In x l -> ~ In x (cq (fst (cexec c0 acts))).
+Proof. exact coroutine_undeploy_cancels. Qed.
+
+Example C27_coroutine_undeploy_ex :
+  let acts := [ASubmit 1; ASubmitRet 1; AClear 1; ASubmit 2; APoll 1; AUndStart; ASubmitRet 2; AListRet 1; ACancel;
+               AClear 2; AUndEnd; AWake 1; APoll 2; AListRet 2; APoll 1] in
+  let c := fst (cexec c0 acts) in
+  cund c = UDone /\ csnap c = Some [1] /\ cpc c 1 = PFailed /\ cpc c 2 = PFailed /\ cq c = [2].
+Proof. vm_compute. repeat split; reflexivity. Qed.
+
+Print Assumptions C27_undeploy_cancels_recorded_coroutine_partial.
 
 Print Assumptions C27_coroutine_refines_partial.
 Print Assumptions C27_after_queue_coroutine_partial.
